@@ -6,7 +6,7 @@ D=$(cd "$1" && pwd); P=$2
 export GOFLAGS=-mod=mod GOPROXY=off
 WT=/tmp/seedconfirm.$$
 git -C /repo worktree add -q "$WT" HEAD || exit 2
-PKG=$(grep -m1 -o 'x/ccv/[a-z/_]*' "$D/demo_test.go" | sed 's#/$##')
+PKG=$(grep -m1 -o 'x/ccv/[a-z/_]*' "$D/demo_test.go" | head -1 | sed 's#/$##')
 [ -d "$WT/$PKG" ] || PKG=$(grep -m1 -o 'tests/[a-z/_]*' "$D/demo_test.go")
 cd "$WT"
 LOG="$D/confirm.log"; : > "$LOG"
